@@ -1,9 +1,10 @@
 /-
-  Lemmas about Model.ChunkSigned on rendered (valid) streams: header parsing, the in-place buffer
-  surgery, and the core induction `par_chunks` (parseAndRemoveChunkInfo on the whole rest of a valid
-  stream from a chunk boundary on).
+  Lemmas about Model.ChunkSigned on rendered (valid) streams: header parsing and the two core
+  inductions — `par_chunks` (parseAndRemoveChunkInfo on the whole rest of a valid stream from a
+  chunk boundary on: the payload, then a clean EOF) and `par_prefix` (on a proper prefix of it: no
+  error, and at most one header's worth of bytes in the stash).
 -/
-import Vgw.Lemmas.Chunked
+import Vgw.Lemmas.ChunkMerge
 namespace Vgw.Lemmas.ChunkSigned
 open Vgw Vgw.Spec.Chunked Vgw.Model
 
@@ -18,6 +19,11 @@ structure SignedHyps (P : Params) (tr : Bool) (csumLen : Nat) : Prop where
   name_ne : P.trailerName ≠ []
   name_colon : (58 : UInt8) ∉ P.trailerName
   csum_len : ∀ x, (P.csum x).length = csumLen
+  /-- every chunk header of a valid stream (with the CRLF in front of it and, for the final chunk,
+  the trailer behind it) fits the 1024 bytes the reader is willing to stash -/
+  hdr_small : ∀ prev d acc, 2 + maxSizeDigits + sigIntro.length + (chunkSig P prev d).length + 2 +
+    (P.trailerName.length + 1 + (checksumB64 P acc).length + 2 + trailerSigIntro.length +
+      (trailerSig P (chunkSig P prev d) acc).length + 2) + 2 ≤ ChunkSigned.maxHeaderSize
 
 theorem sigIntro_eq : sigIntro = 59 :: ChunkSigned.chunkSignatureLit := by decide
 theorem trailerSigIntro_eq : trailerSigIntro = ChunkSigned.trailerSignatureHeader ++ [58] := by decide
@@ -33,7 +39,7 @@ theorem trailerSig_no_cr (P : Params) (prev d : Bytes) : (13 : UInt8) ∉ traile
 
 theorem parseCore_chunk (cfg : ChunkSigned.Cfg) (h sig rest : Bytes) (n : Nat) (hh : IsHex h n) (hn0 : n ≠ 0)
     (hnb : n ≤ chunkBound) (hsig : (13 : UInt8) ∉ sig) :
-    ChunkSigned.parseCore cfg (h ++ sigIntro ++ sig ++ crlf ++ rest) = .ok { chunkSize := n, sig := sig } := by
+    ChunkSigned.parseCore cfg (h ++ sigIntro ++ sig ++ crlf ++ rest) = .ok ({ chunkSize := n, sig := sig }, rest) := by
   have e : h ++ sigIntro ++ sig ++ crlf ++ rest =
       h ++ 59 :: (ChunkSigned.chunkSignatureLit ++ (sig ++ 13 :: ([10] ++ rest))) := by
     simp [sigIntro_eq, crlf]
@@ -41,7 +47,9 @@ theorem parseCore_chunk (cfg : ChunkSigned.Cfg) (h sig rest : Bytes) (n : Nat) (
   unfold ChunkSigned.parseCore
   rw [readUntil_append 59 h _ (isHex_not_mem hh 59 not_hex_59)]
   simp only [parseIntHex64_of_isHex hh hnb, readAndSkip_append, readUntil_append 13 sig _ hsig]
-  simp [readAndSkip]
+  have hn0' : ¬ ((n : Int) = 0) := by omega
+  have hnn : ¬ ((n : Int) < 0) := by omega
+  simp [readAndSkip, hnn]
   intro h0; exact absurd h0 hn0
 
 /-- what follows the final chunk's signature line -/
@@ -52,9 +60,8 @@ def finalTail (P : Params) (tr : Bool) (sig acc : Bytes) : Bytes :=
 theorem parseCore_final (P : Params) (tr : Bool) (L : Nat) (H : SignedHyps P tr L) (hz sig acc : Bytes)
     (hh : IsHex hz 0) (hsig : (13 : UInt8) ∉ sig) :
     ChunkSigned.parseCore (signedCfg P tr L) (hz ++ sigIntro ++ sig ++ crlf ++ finalTail P tr sig acc) =
-      .ok { chunkSize := 0, sig := sig,
-            trailerSig := if tr then trailerSig P sig acc else [],
-            checksum := if tr then checksumB64 P acc else [] } := by
+      .ok (ChunkSigned.Parsed.mk 0 sig (if tr then trailerSig P sig acc else [])
+            (if tr then checksumB64 P acc else []), []) := by
   cases tr with
   | false =>
     have e : hz ++ sigIntro ++ sig ++ crlf ++ finalTail P false sig acc =
@@ -104,122 +111,169 @@ theorem checkSignature_ok (P : Params) (tr : Bool) (L : Nat) (st : ChunkSigned.S
   simp only [e]
   simp
 
-theorem shift2_crlf (X : Bytes) : ∃ g, ChunkSigned.shift2 (13 :: 10 :: X) = X ++ g := by
-  exact ⟨(13 :: 10 :: X).drop ((13 :: 10 :: X).length - 2), by simp [ChunkSigned.shift2]⟩
 
-theorem state_stash_none (st : ChunkSigned.State) (h : st.stash = none) : { st with stash := none } = st := by
-  cases st; simp_all
+open Vgw.Lemmas.ChunkParse Vgw.Lemmas.ChunkMerge
 
-/-- first header, data chunk -/
-theorem header_chunk_first (cfg : ChunkSigned.Cfg) (st : ChunkSigned.State) (hdr rest sig : Bytes) (n : Int)
-    (hst : st.stash = none) (hf : st.isFirstHeader = true)
-    (hcore : ChunkSigned.parseCore cfg (hdr ++ 13 :: 10 :: rest) = .ok { chunkSize := n, sig := sig })
-    (hn0 : n ≠ 0) (h13 : (13 : UInt8) ∉ hdr) :
-    ChunkSigned.parseChunkHeaderBytes cfg st (hdr ++ 13 :: 10 :: rest) =
-      ({ st with isFirstHeader := false }, hdr ++ 13 :: 10 :: rest, ((hdr ++ 13 :: 10 :: rest).length : Int),
-        .chunk n sig ((hdr.length : Int) + 2)) := by
-  unfold ChunkSigned.parseChunkHeaderBytes
-  simp only [hst, Option.getD_none, List.length_nil, ChunkSigned.maxHeaderSize, hf]
-  simp only [ChunkSigned.finishHeader, hcore, hn0, indexCRLF_append _ _ h13]
-  simp
+def preOf (first : Bool) : Bytes := if first then [] else [13, 10]
 
-/-- later header, data chunk: the buffer is shifted by two, two stale bytes `g` stay behind -/
-theorem header_chunk_next (cfg : ChunkSigned.Cfg) (st : ChunkSigned.State) (hdr rest sig : Bytes) (n : Int)
-    (hst : st.stash = none) (hf : st.isFirstHeader = false)
-    (hcore : ChunkSigned.parseCore cfg (hdr ++ 13 :: 10 :: rest) = .ok { chunkSize := n, sig := sig })
-    (hn0 : n ≠ 0) (h13 : (13 : UInt8) ∉ hdr) :
-    ∃ g, ChunkSigned.parseChunkHeaderBytes cfg st (13 :: 10 :: (hdr ++ 13 :: 10 :: rest)) =
-      ({ st with isFirstHeader := false }, hdr ++ 13 :: 10 :: (rest ++ g),
-        ((hdr ++ 13 :: 10 :: rest).length : Int), .chunk n sig ((hdr.length : Int) + 2)) := by
-  obtain ⟨g, hg⟩ := shift2_crlf (hdr ++ 13 :: 10 :: rest)
-  refine ⟨g, ?_⟩
-  unfold ChunkSigned.parseChunkHeaderBytes
-  simp only [hst, Option.getD_none, List.length_nil, ChunkSigned.maxHeaderSize, hf]
-  have : readAndSkip [13, 10] (13 :: 10 :: (hdr ++ 13 :: 10 :: rest)) = .ok (hdr ++ 13 :: 10 :: rest) :=
-    readAndSkip_append [13, 10] _
-  simp only [this, hg]
-  have hXg : hdr ++ 13 :: 10 :: rest ++ g = hdr ++ 13 :: 10 :: (rest ++ g) := by simp
-  simp only [ChunkSigned.finishHeader, hcore, hn0, hXg, indexCRLF_append _ _ h13]
-  simp
-  omega
-
-/-- final chunk header, first or later: result and state -/
-theorem header_final (cfg : ChunkSigned.Cfg) (st : ChunkSigned.State) (X : Bytes) (r : ChunkSigned.Parsed)
-    (hst : st.stash = none) (hcore : ChunkSigned.parseCore cfg X = .ok r) (hr : r.chunkSize = 0) :
-    ∃ p' n', ChunkSigned.parseChunkHeaderBytes cfg st ((if st.isFirstHeader then [] else [13, 10]) ++ X) =
-      (if cfg.trailer ≠ [] then { st with trailerSig := r.trailerSig, parsedChecksum := r.checksum } else st,
-        p', n', .chunk 0 r.sig 0) := by
-  cases hf : st.isFirstHeader with
-  | true =>
-    refine ⟨X, (X.length : Int), ?_⟩
-    unfold ChunkSigned.parseChunkHeaderBytes
-    simp only [hst, Option.getD_none, List.length_nil, ChunkSigned.maxHeaderSize, hf]
-    simp only [ChunkSigned.finishHeader]
-    simp [hcore, hr]
-    cases st; simp_all
+/-- `parseHeader` on `[CRLF] header rest` when `parseCore` consumes exactly `header` -/
+theorem parseHeader_of_core (cfg : ChunkSigned.Cfg) (first : Bool) (X rest : Bytes) (r : ChunkSigned.Parsed)
+    (h : ChunkSigned.parseCore cfg (X ++ rest) = .ok (r, rest)) :
+    ChunkSigned.parseHeader cfg first (preOf first ++ X ++ rest) = .ok (r, rest) := by
+  unfold ChunkSigned.parseHeader preOf
+  cases first with
+  | true => simpa using h
   | false =>
-    obtain ⟨g, hg⟩ := shift2_crlf X
-    refine ⟨X ++ g, (X.length : Int), ?_⟩
-    unfold ChunkSigned.parseChunkHeaderBytes
-    simp only [hst, Option.getD_none, List.length_nil, ChunkSigned.maxHeaderSize, hf]
-    have : readAndSkip [13, 10] (13 :: 10 :: X) = .ok X := readAndSkip_append [13, 10] _
-    simp only [ChunkSigned.finishHeader]
-    simp [this, hg, hcore, hr]
-    refine ⟨?_, by omega⟩
-    cases st; simp_all
+    simp only [Bool.false_eq_true, if_false, List.append_assoc]
+    rw [readAndSkip_append]
+    exact h
 
+/-- a proper prefix of a complete header is an incomplete header -/
+theorem parseHeader_prefix_needMore (cfg : ChunkSigned.Cfg) (first : Bool) (A F X : Bytes) (r : ChunkSigned.Parsed)
+    (h : ChunkSigned.parseHeader cfg first A = .ok (r, [])) (hF : F ++ X = A) (hX : X ≠ []) :
+    ChunkSigned.parseHeader cfg first F = .error (.rd .eof) := by
+  cases hp : ChunkSigned.parseHeader cfg first F with
+  | ok rr =>
+    obtain ⟨r', rest'⟩ := rr
+    have := parseHeader_fwd_ok cfg first F X r' rest' hp
+    rw [hF, h] at this
+    simp at this
+    exact absurd this.2.2 hX
+  | error pe =>
+    cases pe with
+    | rd x =>
+      cases x with
+      | eof => rfl
+      | mismatch =>
+        have := parseHeader_fwd_err cfg first F X _ (by simp [Definite]) hp
+        rw [hF, h] at this; simp at this
+    | fail x =>
+      have := parseHeader_fwd_err cfg first F X _ (by simp [Definite]) hp
+      rw [hF, h] at this; simp at this
 
-/-- one unfolding of `parseAndRemoveChunkInfo` at a data chunk that is followed by more bytes, when
-the recursive call ends in a clean EOF -/
-theorem par_unfold_chunk (cfg : ChunkSigned.Cfg) (fuel : Nat) (st st1 st2 st4 : ChunkSigned.State)
-    (p p' data sig out : Bytes) (n' off : Int) (n : Nat)
-    (hchk : (if st.parsedSig ≠ [] then ChunkSigned.checkSignature cfg st else .ok st) = .ok st1)
-    (hhdr : ChunkSigned.parseChunkHeaderBytes cfg st1 p = (st2, p', n', .chunk n sig off))
-    (hn0 : n ≠ 0) (hoff0 : 0 ≤ off) (hoff : off ≤ n')
-    (hdata : (p'.drop off.toNat).take (n' - off).toNat = data) (hlen : n' - off = data.length)
-    (hmore : n < data.length)
-    (hrec : ChunkSigned.parseAndRemove cfg fuel
-      (ChunkSigned.hashWrite cfg { st2 with parsedSig := sig, chunkDataLeft := 0 } (data.take n)) (data.drop n) =
-        (st4, ⟨out, .eof⟩))
-    (hsum : (n : Int) + (out.length : Int) ≤ ChunkSigned.intMax) :
-    ChunkSigned.parseAndRemove cfg (fuel + 1) st p = (st4, ⟨data.take n ++ out, .eof⟩) := by
-  rw [ChunkSigned.parseAndRemove]
-  simp only [hchk, hhdr]
-  have h1 : ¬ ((n : Int) == 0) = true := by simp; omega
-  have h2 : ¬ (off < 0 ∨ n' < off) := by omega
-  have h3 : n' - off > (n : Int) := by omega
-  have h4 : ¬ ((n : Int) < 0) := by omega
-  have h5 : ¬ ((n : Int) + (out.length : Int) > ChunkSigned.intMax) := by omega
-  simp only [h1, h2, hdata, h3, h4]
-  simp [hrec, h5, ChunkSigned.joinRec]
+/-- header of a data chunk at a chunk boundary (nothing stashed) -/
+theorem hdr_chunk (cfg : ChunkSigned.Cfg) (st : ChunkSigned.State) (hdr rest sig : Bytes) (n : Int)
+    (hst : st.stash = [])
+    (hcore : ChunkSigned.parseCore cfg (hdr ++ 13 :: 10 :: rest) = .ok ({ chunkSize := n, sig := sig }, rest))
+    (hn0 : n ≠ 0) (h13 : (13 : UInt8) ∉ hdr) :
+    ChunkSigned.parseChunkHeaderBytes cfg st (preOf st.isFirstHeader ++ (hdr ++ 13 :: 10 :: rest)) =
+      ({ st with isFirstHeader := false }, .chunk n sig (((preOf st.isFirstHeader).length + hdr.length + 2 : Nat) : Int)) := by
+  have hph := parseHeader_of_core cfg st.isFirstHeader (hdr ++ [13, 10]) rest _ (by simpa using hcore)
+  unfold ChunkSigned.parseChunkHeaderBytes
+  simp only [hst, List.length_nil, ChunkSigned.maxHeaderSize, List.nil_append]
+  have e : preOf st.isFirstHeader ++ (hdr ++ 13 :: 10 :: rest) = preOf st.isFirstHeader ++ (hdr ++ [13, 10]) ++ rest := by simp
+  rw [e, hph]
+  have hdrop : List.drop (if st.isFirstHeader = true then 0 else 2) (preOf st.isFirstHeader ++ (hdr ++ [13, 10]) ++ rest) =
+      hdr ++ 13 :: 10 :: rest := by
+    unfold preOf; cases st.isFirstHeader <;> simp
+  simp only [hn0, if_false, hdrop, indexCRLF_append _ _ h13]
+  unfold preOf
+  cases st with
+  | mk a b c d e f g h i j =>
+    simp only at hst
+    subst hst
+    cases j <;> simp <;> omega
 
-/-- one unfolding of `parseAndRemoveChunkInfo` at the final chunk when all verifications succeed -/
+/-- the final chunk header at a chunk boundary -/
+theorem hdr_final (cfg : ChunkSigned.Cfg) (st : ChunkSigned.State) (X : Bytes) (r : ChunkSigned.Parsed)
+    (hst : st.stash = []) (hcore : ChunkSigned.parseCore cfg X = .ok (r, [])) (hr : r.chunkSize = 0) :
+    ChunkSigned.parseChunkHeaderBytes cfg st (preOf st.isFirstHeader ++ X) =
+      (if cfg.trailer ≠ [] then { st with trailerSig := r.trailerSig, parsedChecksum := r.checksum } else st,
+        .chunk 0 r.sig 0) := by
+  have hph := parseHeader_of_core cfg st.isFirstHeader X [] r (by simpa using hcore)
+  simp only [List.append_nil] at hph
+  unfold ChunkSigned.parseChunkHeaderBytes
+  simp only [hst, List.length_nil, ChunkSigned.maxHeaderSize, List.nil_append]
+  rw [hph]
+  cases st with
+  | mk a b c d e f g h i j =>
+    simp only at hst
+    subst hst
+    simp [hr]
+
+/-- a proper prefix of a header at a chunk boundary: everything goes to the stash -/
+theorem hdr_incomplete (cfg : ChunkSigned.Cfg) (st : ChunkSigned.State) (A F X : Bytes) (r : ChunkSigned.Parsed)
+    (hst : st.stash = []) (he : st.isEOF = false)
+    (h : ChunkSigned.parseHeader cfg st.isFirstHeader A = .ok (r, [])) (hF : F ++ X = A) (hX : X ≠ []) :
+    ChunkSigned.parseChunkHeaderBytes cfg st F = ({ st with stash := F }, .skip) := by
+  have hn := parseHeader_prefix_needMore cfg st.isFirstHeader A F X r h hF hX
+  have := hdr_needMore cfg st F (by simp [hst, ChunkSigned.maxHeaderSize]) he (by simpa [hst] using hn)
+  simpa [hst] using this
+
 theorem par_unfold_final (cfg : ChunkSigned.Cfg) (fuel : Nat) (st st1 st2 st3 : ChunkSigned.State)
-    (p p' sig : Bytes) (n' : Int)
+    (p sig : Bytes) (off : Int)
     (hchk : (if st.parsedSig ≠ [] then ChunkSigned.checkSignature cfg st else .ok st) = .ok st1)
-    (hhdr : ChunkSigned.parseChunkHeaderBytes cfg st1 p = (st2, p', n', .chunk 0 sig 0))
+    (hhdr : ChunkSigned.parseChunkHeaderBytes cfg st1 p = (st2, .chunk 0 sig off))
     (hsig : ChunkSigned.checkSignature cfg { st2 with parsedSig := sig, chunkAcc := [] } = .ok st3)
     (hver : cfg.trailer ≠ [] → ChunkSigned.verifyChecksum cfg st3 = .ok () ∧
       ChunkSigned.verifyTrailerSignature cfg st3 = .ok ()) :
     ChunkSigned.parseAndRemove cfg (fuel + 1) st p = (st3, ⟨[], .eof⟩) := by
   rw [ChunkSigned.parseAndRemove]
-  simp only [hchk, hhdr]
+  unfold ChunkSigned.parStep
+  simp only [hchk]
+  unfold ChunkSigned.parBody
+  rw [hhdr]
   simp only [show ((0 : Int) == 0) = true from rfl, if_true, ChunkSigned.finalChunk, hsig]
   by_cases ht : cfg.trailer = []
   · simp [ht]
   · simp [ht, (hver ht).1, (hver ht).2]
 
-/-- the pending signature check at the entry of `parseAndRemoveChunkInfo` -/
+theorem par_unfold_cont (cfg : ChunkSigned.Cfg) (fuel : Nat) (st st1 st2 : ChunkSigned.State)
+    (p sig : Bytes) (n off : Int)
+    (hchk : (if st.parsedSig ≠ [] then ChunkSigned.checkSignature cfg st else .ok st) = .ok st1)
+    (hhdr : ChunkSigned.parseChunkHeaderBytes cfg st1 p = (st2, .chunk n sig off)) (hn0 : n ≠ 0) :
+    ChunkSigned.parseAndRemove cfg (fuel + 1) st p =
+      cont cfg (ChunkSigned.parseAndRemove cfg fuel) { st2 with parsedSig := sig } n off p := by
+  rw [ChunkSigned.parseAndRemove]
+  unfold ChunkSigned.parStep
+  simp only [hchk]
+  exact parBody_chunk cfg _ st1 st2 p sig n off hhdr hn0
+
+/-- `cont` when the buffer ends inside (or at the end of) the chunk data -/
+theorem cont_data (cfg : ChunkSigned.Cfg) (K : ChunkSigned.State → Bytes → Res) (sL : ChunkSigned.State)
+    (hdrLen : Nat) (n : Nat) (hdr data : Bytes) (hl : hdr.length = hdrLen) (hle : data.length ≤ n) :
+    cont cfg K sL n (hdrLen : Int) (hdr ++ data) =
+      (ChunkSigned.hashWrite cfg { sL with chunkDataLeft := (n : Int) - data.length } data, ⟨data, .nil⟩) := by
+  unfold cont
+  have c1 : ¬ (((hdrLen : Nat) : Int) < 0 ∨ (((hdr ++ data).length : Nat) : Int) < (hdrLen : Int)) := by
+    simp only [List.length_append]; omega
+  have hd : List.drop (hdrLen : Int).toNat (hdr ++ data) = data := by
+    rw [Int.toNat_natCast, ← hl]; simp
+  have c2 : ¬ ((data.length : Int) > (n : Int)) := by omega
+  simp only [c1, if_false, hd, c2]
+
+/-- `cont` when the chunk ends inside the buffer and the recursive call ends well -/
+theorem cont_rec (cfg : ChunkSigned.Cfg) (K : ChunkSigned.State → Bytes → Res) (sL st4 : ChunkSigned.State)
+    (hdrLen : Nat) (hdr d more out : Bytes) (s : ChunkSigned.Status) (hl : hdr.length = hdrLen) (hmore : more ≠ [])
+    (hrec : K (ChunkSigned.hashWrite cfg { sL with chunkDataLeft := 0 } d) more = (st4, ⟨out, s⟩))
+    (hs : s = .nil ∨ s = .eof)
+    (hsum : (d.length : Int) + (out.length : Int) ≤ ChunkSigned.intMax) :
+    cont cfg K sL (d.length : Int) (hdrLen : Int) (hdr ++ (d ++ more)) = (st4, ⟨d ++ out, s⟩) := by
+  unfold cont
+  have hmlen : 0 < more.length := List.length_pos_iff.2 hmore
+  have c1 : ¬ (((hdrLen : Nat) : Int) < 0 ∨ (((hdr ++ (d ++ more)).length : Nat) : Int) < (hdrLen : Int)) := by
+    simp only [List.length_append]; omega
+  have hd : List.drop (hdrLen : Int).toNat (hdr ++ (d ++ more)) = d ++ more := by
+    rw [Int.toNat_natCast, ← hl]; simp
+  have c2 : (((d ++ more).length : Nat) : Int) > (d.length : Int) := by simp only [List.length_append]; omega
+  have c3 : ¬ ((d.length : Int) < 0) := by omega
+  have hd' : List.drop hdrLen (hdr ++ (d ++ more)) = d ++ more := by rw [← hl]; simp
+  simp only [c1, if_false, Int.toNat_natCast, hd', c2, if_true, c3, List.take_left, List.drop_left]
+  rw [hrec, joinRec_eq_prepend _ _ _ (by simpa using (by omega : ¬ ((d.length : Int) + (out.length : Int) > ChunkSigned.intMax)))]
+  unfold ChunkSigned.prepend
+  rcases hs with rfl | rfl <;> rfl
+
 theorem entry_check (P : Params) (tr : Bool) (L : Nat) (H : SignedHyps P tr L) (st : ChunkSigned.State)
     (hfirst : st.isFirstHeader = true → st.parsedSig = [] ∧ st.chunkAcc = [])
     (hnext : st.isFirstHeader = false → st.parsedSig = chunkSig P st.prevSig st.chunkAcc) :
     ∃ st1, (if st.parsedSig ≠ [] then ChunkSigned.checkSignature (signedCfg P tr L) st else .ok st) = .ok st1 ∧
       st1.prevSig = (if st.isFirstHeader then st.prevSig else st.parsedSig) ∧ st1.chunkAcc = [] ∧
-      st1.parsedSig = [] ∧ st1.stash = st.stash ∧ st1.isFirstHeader = st.isFirstHeader ∧ st1.csumAcc = st.csumAcc := by
+      st1.parsedSig = [] ∧ st1.stash = st.stash ∧ st1.isFirstHeader = st.isFirstHeader ∧ st1.csumAcc = st.csumAcc ∧
+      st1.isEOF = st.isEOF := by
   cases hf : st.isFirstHeader with
   | true =>
     obtain ⟨h1, h2⟩ := hfirst hf
-    exact ⟨st, by simp [h1], by simp, h2, h1, rfl, hf, rfl⟩
+    exact ⟨st, by simp [h1], by simp, h2, h1, rfl, hf, rfl, rfl⟩
   | false =>
     have h := hnext hf
     have hne : st.parsedSig ≠ [] := by rw [h]; exact chunkSig_ne_nil H.hmac_ne _ _
@@ -243,30 +297,48 @@ theorem verifyChecksum_ok (P : Params) (L : Nat) (st : ChunkSigned.State) (acc :
     ChunkSigned.verifyChecksum (signedCfg P true L) st = .ok () := by
   simp [ChunkSigned.verifyChecksum, h1, h2, checksumB64, signedCfg]
 
+
+theorem split_prefix (F G Hd T : Bytes) (h : F ++ G = Hd ++ T) :
+    (F.length < Hd.length ∧ ∃ X, X ≠ [] ∧ F ++ X = Hd) ∨ (∃ F', F = Hd ++ F' ∧ F' ++ G = T) := by
+  rcases List.append_eq_append_iff.1 h with ⟨a, h1, h2⟩ | ⟨c, h1, h2⟩
+  · -- Hd = F ++ a
+    by_cases ha : a = []
+    · subst ha; right; exact ⟨[], by simp [h1], by simpa using h2⟩
+    · left
+      refine ⟨?_, a, ha, h1.symm⟩
+      have := List.length_pos_iff.2 ha
+      rw [h1]; simp; omega
+  · right; exact ⟨c, h1, h2.symm⟩
+
+/-- the hypotheses under which `parseAndRemoveChunkInfo` stands at a chunk boundary of a valid stream -/
+structure AtBoundary (P : Params) (tr : Bool) (st : ChunkSigned.State) (acc : Bytes) : Prop where
+  stash : st.stash = []
+  first : st.isFirstHeader = true → st.parsedSig = [] ∧ st.chunkAcc = []
+  next : st.isFirstHeader = false → st.parsedSig = chunkSig P st.prevSig st.chunkAcc
+  csum : tr = true → st.csumAcc = acc
+
+def prevOf (st : ChunkSigned.State) : Bytes := if st.isFirstHeader then st.prevSig else st.parsedSig
+
 /-- **The core induction**: `parseAndRemoveChunkInfo` on the whole rest of a valid signed stream
 (from a chunk boundary on) yields the rest of the payload and a clean EOF. -/
 theorem par_chunks (P : Params) (tr : Bool) (L : Nat) (H : SignedHyps P tr L) :
     ∀ (cs : List Chunk) (hz : Bytes) (st : ChunkSigned.State) (acc : Bytes) (fuel : Nat),
       (∀ c ∈ cs, IsHex c.1 c.2.length ∧ c.2 ≠ []) → IsHex hz 0 → (payloadOf cs).length ≤ chunkBound →
-      cs.length < fuel → st.stash = none →
-      (st.isFirstHeader = true → st.parsedSig = [] ∧ st.chunkAcc = []) →
-      (st.isFirstHeader = false → st.parsedSig = chunkSig P st.prevSig st.chunkAcc) →
-      (tr = true → st.csumAcc = acc) →
+      cs.length < fuel → AtBoundary P tr st acc →
       ∃ st', ChunkSigned.parseAndRemove (signedCfg P tr L) fuel st
-        ((if st.isFirstHeader then [] else crlf) ++
-          renderSigned P tr (if st.isFirstHeader then st.prevSig else st.parsedSig) acc cs hz) =
-        (st', ⟨payloadOf cs, .eof⟩) := by
+        (preOf st.isFirstHeader ++ renderSigned P tr (prevOf st) acc cs hz) = (st', ⟨payloadOf cs, .eof⟩) := by
   intro cs
   induction cs with
   | nil =>
-    intro hz st acc fuel _ hhz _ hfuel hst hfirst hnext hacc
+    intro hz st acc fuel _ hhz _ hfuel hb
     obtain ⟨fuel, rfl⟩ : ∃ f, fuel = f + 1 := ⟨fuel - 1, by omega⟩
-    obtain ⟨st1, hchk, hprev, hca, hps, hstash, hfh, hcsum⟩ := entry_check P tr L H st hfirst hnext
-    generalize hprevdef : (if st.isFirstHeader then st.prevSig else st.parsedSig) = prev at *
+    obtain ⟨st1, hchk, hprev, hca, hps, hstash, hfh, hcsum, _⟩ := entry_check P tr L H st hb.first hb.next
+    generalize hprevdef : prevOf st = prev at *
+    have hprev' : st1.prevSig = prev := by rw [hprev, ← hprevdef]; rfl
     have hcore := parseCore_final P tr L H hz (chunkSig P prev []) acc hhz (chunkSig_no_cr P prev [])
-    obtain ⟨p', n', hhdr⟩ := header_final (signedCfg P tr L) st1 _ _ (hstash.trans hst) hcore rfl
-    have hstream : (if st.isFirstHeader then [] else crlf) ++ renderSigned P tr prev acc [] hz =
-        (if st1.isFirstHeader then [] else [13, 10]) ++
+    have hhdr := hdr_final (signedCfg P tr L) st1 _ _ (hstash.trans hb.stash) hcore rfl
+    have hstream : preOf st.isFirstHeader ++ renderSigned P tr prev acc [] hz =
+        preOf st1.isFirstHeader ++
           (hz ++ sigIntro ++ chunkSig P prev [] ++ crlf ++ finalTail P tr (chunkSig P prev []) acc) := by
       simp [renderSigned, finalTail, hfh, crlf]
     rw [hstream]
@@ -275,29 +347,29 @@ theorem par_chunks (P : Params) (tr : Bool) (L : Nat) (H : SignedHyps P tr L) :
           { st1 with trailerSig := (if tr = true then trailerSig P (chunkSig P prev []) acc else []),
                      parsedChecksum := (if tr = true then checksumB64 P acc else []) }
          else st1) with parsedSig := chunkSig P prev [], chunkAcc := [] }
-      (by cases tr <;> simp [signedCfg, hprev, H.name_ne])
-    refine ⟨_, par_unfold_final _ fuel st st1 _ _ _ p' _ n' hchk hhdr hsig ?_⟩
+      (by cases tr <;> simp [signedCfg, hprev', H.name_ne])
+    refine ⟨_, par_unfold_final _ fuel st st1 _ _ _ _ 0 hchk hhdr hsig ?_⟩
     intro ht
     cases tr with
     | false => simp [signedCfg] at ht
     | true =>
       have hne : (signedCfg P true L).trailer ≠ [] := ht
       constructor
-      · apply verifyChecksum_ok P L _ acc <;> simp [hne, hcsum, hacc rfl]
+      · apply verifyChecksum_ok P L _ acc <;> simp [hne, hcsum, hb.csum rfl]
       · apply verifyTrailer_ok P L _ acc <;> simp [hne]
   | cons c cs ih =>
     obtain ⟨h, d⟩ := c
-    intro hz st acc fuel hwf hhz hbound hfuel hst hfirst hnext hacc
+    intro hz st acc fuel hwf hhz hbound hfuel hb
     obtain ⟨fuel, rfl⟩ : ∃ f, fuel = f + 1 := ⟨fuel - 1, by omega⟩
-    obtain ⟨st1, hchk, hprev, hca, hps, hstash, hfh, hcsum⟩ := entry_check P tr L H st hfirst hnext
-    generalize hprevdef : (if st.isFirstHeader then st.prevSig else st.parsedSig) = prev at *
+    obtain ⟨st1, hchk, hprev, hca, hps, hstash, hfh, hcsum, _⟩ := entry_check P tr L H st hb.first hb.next
+    generalize hprevdef : prevOf st = prev at *
+    have hprev' : st1.prevSig = prev := by rw [hprev, ← hprevdef]; rfl
     have hhd := (hwf (h, d) (by simp)).1
     have hdne := (hwf (h, d) (by simp)).2
     simp only at hhd hdne
     rw [payloadOf_cons] at hbound ⊢
     simp only [List.length_append] at hbound
-    have hdpos : d.length ≠ 0 := by
-      intro e; exact hdne (List.length_eq_zero_iff.1 e)
+    have hdpos : d.length ≠ 0 := fun e => hdne (List.length_eq_zero_iff.1 e)
     let sig := chunkSig P prev d
     let R := renderSigned P tr sig (acc ++ d) cs hz
     have hcore := parseCore_chunk (signedCfg P tr L) h sig (d ++ crlf ++ R) d.length hhd hdpos (by omega)
@@ -309,63 +381,167 @@ theorem par_chunks (P : Params) (tr : Bool) (L : Nat) (H : SignedHyps P tr L) :
       simp [crlf]
     rw [hX] at hcore
     have hn0 : ((d.length : Nat) : Int) ≠ 0 := by omega
-    -- the recursive call
-    have hrec : ∀ st2 : ChunkSigned.State, st2.stash = none → st2.isFirstHeader = false → st2.prevSig = prev →
-        st2.chunkAcc = [] → st2.csumAcc = st.csumAcc →
-        ∃ st4, ChunkSigned.parseAndRemove (signedCfg P tr L) fuel
-          (ChunkSigned.hashWrite (signedCfg P tr L) { st2 with parsedSig := sig, chunkDataLeft := 0 } d)
-          (crlf ++ R) = (st4, ⟨payloadOf cs, .eof⟩) := by
-      intro st2 h1 h2 h3 h4 h5
-      have := ih hz (ChunkSigned.hashWrite (signedCfg P tr L) { st2 with parsedSig := sig, chunkDataLeft := 0 } d)
-        (acc ++ d) fuel (fun c hc => hwf c (by simp [hc])) hhz (by omega) (by simp at hfuel; omega)
-        (by simp [ChunkSigned.hashWrite, h1]) (by simp [ChunkSigned.hashWrite, h2])
-        (by intro _; simp [ChunkSigned.hashWrite, h3, h4, sig])
-        (by intro ht; simp [ChunkSigned.hashWrite, signedCfg, ht, H.name_ne, h5, hacc ht])
-      simpa [ChunkSigned.hashWrite, h2, R, sig] using this
-    have hdata1 : ∀ g : Bytes, List.take ((((h ++ sigIntro ++ sig) ++ 13 :: 10 :: (d ++ crlf ++ R)).length : Int) -
-          (((h ++ sigIntro ++ sig).length : Int) + 2)).toNat
-        (List.drop (((h ++ sigIntro ++ sig).length : Int) + 2).toNat ((h ++ sigIntro ++ sig) ++ 13 :: 10 :: ((d ++ crlf ++ R) ++ g))) =
-        d ++ crlf ++ R := by
-      intro g
-      have e1 : (((h ++ sigIntro ++ sig).length : Int) + 2).toNat = (h ++ sigIntro ++ sig).length + 2 := by omega
-      have e2 : ((((h ++ sigIntro ++ sig) ++ 13 :: 10 :: (d ++ crlf ++ R)).length : Int) -
-          (((h ++ sigIntro ++ sig).length : Int) + 2)).toNat = (d ++ crlf ++ R).length := by
-        simp only [List.length_append, List.length_cons]; omega
-      rw [e1, e2]
-      have : (h ++ sigIntro ++ sig) ++ 13 :: 10 :: ((d ++ crlf ++ R) ++ g) =
-          ((h ++ sigIntro ++ sig) ++ [13, 10]) ++ ((d ++ crlf ++ R) ++ g) := by simp
-      rw [this, List.drop_left' (by simp; omega), List.take_left' rfl]
-    have htake : (d ++ crlf ++ R).take d.length = d := by simp
-    have hdrop : (d ++ crlf ++ R).drop d.length = crlf ++ R := by simp
-    have hmore : d.length < (d ++ crlf ++ R).length := by simp [crlf]
-    have hstream : (if st.isFirstHeader then [] else crlf) ++ renderSigned P tr prev acc ((h, d) :: cs) hz =
-        (if st1.isFirstHeader then [] else [13, 10]) ++
-          ((h ++ sigIntro ++ sig) ++ 13 :: 10 :: (d ++ crlf ++ R)) := by
+    have hhdr := hdr_chunk (signedCfg P tr L) st1 _ _ sig _ (hstash.trans hb.stash) hcore hn0 h13
+    have hstream : preOf st.isFirstHeader ++ renderSigned P tr prev acc ((h, d) :: cs) hz =
+        preOf st1.isFirstHeader ++ ((h ++ sigIntro ++ sig) ++ 13 :: 10 :: (d ++ crlf ++ R)) := by
       simp [renderSigned, hfh, crlf, R, sig]
-    rw [hstream]
-    cases hf1 : st1.isFirstHeader with
-    | true =>
-      have hhdr := header_chunk_first (signedCfg P tr L) st1 _ _ sig _ (hstash.trans hst) hf1 hcore hn0 h13
-      obtain ⟨st4, hr⟩ := hrec { st1 with isFirstHeader := false } (by simp [hstash, hst]) rfl hprev hca hcsum
-      refine ⟨st4, ?_⟩
-      have := par_unfold_chunk (signedCfg P tr L) fuel st st1 _ st4 _ _ (d ++ crlf ++ R) sig (payloadOf cs) _ _ d.length
-        hchk hhdr hdpos (by omega) (by simp only [List.length_append, List.length_cons]; omega)
-        (by have := hdata1 []; simpa using this)
-        (by simp only [List.length_append, List.length_cons, crlf]; omega) hmore
-        (by rw [htake, hdrop]; exact hr)
-        (by unfold ChunkSigned.intMax; unfold chunkBound at hbound; omega)
-      simpa [htake] using this
-    | false =>
-      obtain ⟨g, hhdr⟩ := header_chunk_next (signedCfg P tr L) st1 _ _ sig _ (hstash.trans hst) hf1 hcore hn0 h13
-      obtain ⟨st4, hr⟩ := hrec { st1 with isFirstHeader := false } (by simp [hstash, hst]) rfl hprev hca hcsum
-      refine ⟨st4, ?_⟩
-      have := par_unfold_chunk (signedCfg P tr L) fuel st st1 _ st4 _ _ (d ++ crlf ++ R) sig (payloadOf cs) _ _ d.length
-        hchk hhdr hdpos (by omega) (by simp only [List.length_append, List.length_cons]; omega)
-        (hdata1 g)
-        (by simp only [List.length_append, List.length_cons, crlf]; omega) hmore
-        (by rw [htake, hdrop]; exact hr)
-        (by unfold ChunkSigned.intMax; unfold chunkBound at hbound; omega)
-      simpa [htake] using this
+    rw [hstream, par_unfold_cont _ fuel st st1 _ _ sig _ _ hchk hhdr hn0]
+    -- the recursive call
+    obtain ⟨st4, hr⟩ := ih hz
+      (ChunkSigned.hashWrite (signedCfg P tr L) { ({ st1 with isFirstHeader := false } : ChunkSigned.State) with
+        parsedSig := sig, chunkDataLeft := 0 } d)
+      (acc ++ d) fuel (fun c hc => hwf c (by simp [hc])) hhz (by omega) (by simp at hfuel; omega)
+      ⟨by simp [ChunkSigned.hashWrite, hstash, hb.stash], by intro h; simp [ChunkSigned.hashWrite] at h,
+        by intro _; simp [ChunkSigned.hashWrite, hprev', hca, sig],
+        by intro ht; simp [ChunkSigned.hashWrite, signedCfg, ht, H.name_ne, hcsum, hb.csum ht]⟩
+    have hr' : ChunkSigned.parseAndRemove (signedCfg P tr L) fuel
+        (ChunkSigned.hashWrite (signedCfg P tr L) { ({ ({ st1 with isFirstHeader := false } : ChunkSigned.State) with
+          parsedSig := sig } : ChunkSigned.State) with chunkDataLeft := 0 } d) (crlf ++ R) = (st4, ⟨payloadOf cs, .eof⟩) := by
+      simpa [prevOf, preOf, ChunkSigned.hashWrite, crlf, R, sig] using hr
+    refine ⟨st4, ?_⟩
+    have e2 : preOf st1.isFirstHeader ++ ((h ++ sigIntro ++ sig) ++ 13 :: 10 :: (d ++ crlf ++ R)) =
+        (preOf st1.isFirstHeader ++ (h ++ sigIntro ++ sig) ++ [13, 10]) ++ (d ++ (crlf ++ R)) := by simp
+    rw [e2]
+    exact cont_rec _ _ _ st4 _ _ d (crlf ++ R) (payloadOf cs) .eof (by simp; omega) (by simp [crlf]) hr' (Or.inr rfl)
+      (by unfold ChunkSigned.intMax; unfold chunkBound at hbound; omega)
+
+theorem preOf_length_le (b : Bool) : (preOf b).length ≤ 2 := by cases b <;> simp [preOf]
+
+/-- **The prefix induction**: `parseAndRemoveChunkInfo` on a proper prefix of the rest of a valid
+signed stream (from a chunk boundary on) ends without error, and what it leaves in the stash is a
+proper prefix of one chunk header — at most 1024 bytes. -/
+theorem par_prefix (P : Params) (tr : Bool) (L : Nat) (H : SignedHyps P tr L) :
+    ∀ (cs : List Chunk) (hz : Bytes) (st : ChunkSigned.State) (acc : Bytes) (fuel : Nat) (F G : Bytes),
+      (∀ c ∈ cs, IsHex c.1 c.2.length ∧ c.2 ≠ []) → IsHex hz 0 →
+      (∀ c ∈ cs, c.1.length ≤ maxSizeDigits) → hz.length ≤ maxSizeDigits →
+      (payloadOf cs).length ≤ chunkBound → cs.length < fuel → AtBoundary P tr st acc → st.isEOF = false →
+      G ≠ [] → F ++ G = preOf st.isFirstHeader ++ renderSigned P tr (prevOf st) acc cs hz →
+      (F.length : Int) ≤ ChunkSigned.intMax →
+      ∃ st' o, ChunkSigned.parseAndRemove (signedCfg P tr L) fuel st F = (st', ⟨o, .nil⟩) ∧
+        st'.stash.length ≤ ChunkSigned.maxHeaderSize := by
+  intro cs
+  induction cs with
+  | nil =>
+    intro hz st acc fuel F G _ hhz _ hhzl _ hfuel hb hE hG hFG _
+    obtain ⟨fuel, rfl⟩ : ∃ f, fuel = f + 1 := ⟨fuel - 1, by omega⟩
+    obtain ⟨st1, hchk, hprev, hca, hps, hstash, hfh, hcsum, hE1⟩ := entry_check P tr L H st hb.first hb.next
+    generalize hprevdef : prevOf st = prev at *
+    have hcore := parseCore_final P tr L H hz (chunkSig P prev []) acc hhz (chunkSig_no_cr P prev [])
+    have hph := parseHeader_of_core (signedCfg P tr L) st1.isFirstHeader
+      (hz ++ sigIntro ++ chunkSig P prev [] ++ crlf ++ finalTail P tr (chunkSig P prev []) acc) [] _
+      (by rw [List.append_nil]; exact hcore)
+    rw [List.append_nil] at hph
+    have hstream : preOf st.isFirstHeader ++ renderSigned P tr prev acc [] hz =
+        preOf st1.isFirstHeader ++
+          (hz ++ sigIntro ++ chunkSig P prev [] ++ crlf ++ finalTail P tr (chunkSig P prev []) acc) := by
+      simp [renderSigned, finalTail, hfh, crlf]
+    rw [hstream] at hFG
+    have hinc := hdr_incomplete (signedCfg P tr L) st1 _ F G _ (hstash.trans hb.stash) (hE1.trans hE) hph hFG hG
+    refine ⟨{ ({ st1 with stash := F } : ChunkSigned.State) with chunkDataLeft := 0 }, [], ?_, ?_⟩
+    · rw [ChunkSigned.parseAndRemove]
+      unfold ChunkSigned.parStep
+      simp only [hchk]
+      unfold ChunkSigned.parBody
+      rw [hinc]
+    · simp only
+      have hl := congrArg List.length hFG
+      have hs := H.hdr_small prev [] acc
+      have hp := preOf_length_le st1.isFirstHeader
+      have hGl := List.length_pos_iff.2 hG
+      simp only [List.length_append, finalTail, crlf, List.length_cons, List.length_nil] at hl
+      split at hl <;> simp only [List.length_append, List.length_cons, List.length_nil] at hl <;> omega
+  | cons c cs ih =>
+    obtain ⟨h, d⟩ := c
+    intro hz st acc fuel F G hwf hhz hdig hhzl hbound hfuel hb hE hG hFG hFmax
+    obtain ⟨fuel, rfl⟩ : ∃ f, fuel = f + 1 := ⟨fuel - 1, by omega⟩
+    obtain ⟨st1, hchk, hprev, hca, hps, hstash, hfh, hcsum, hE1⟩ := entry_check P tr L H st hb.first hb.next
+    generalize hprevdef : prevOf st = prev at *
+    have hprev' : st1.prevSig = prev := by rw [hprev, ← hprevdef]; rfl
+    have hhd := (hwf (h, d) (by simp)).1
+    have hdne := (hwf (h, d) (by simp)).2
+    have hhl := hdig (h, d) (by simp)
+    simp only at hhd hdne hhl
+    rw [payloadOf_cons] at hbound
+    simp only [List.length_append] at hbound
+    have hdpos : d.length ≠ 0 := fun e => hdne (List.length_eq_zero_iff.1 e)
+    let sig := chunkSig P prev d
+    let R := renderSigned P tr sig (acc ++ d) cs hz
+    have h13 : (13 : UInt8) ∉ h ++ sigIntro ++ sig := by
+      simp only [List.mem_append, not_or]
+      exact ⟨⟨isHex_not_mem hhd 13 not_hex_13, by decide⟩, chunkSig_no_cr P prev d⟩
+    have hn0 : ((d.length : Nat) : Int) ≠ 0 := by omega
+    have hcoreR : ∀ rest : Bytes, ChunkSigned.parseCore (signedCfg P tr L) ((h ++ sigIntro ++ sig) ++ 13 :: 10 :: rest) =
+        .ok ({ chunkSize := d.length, sig := sig }, rest) := by
+      intro rest
+      have := parseCore_chunk (signedCfg P tr L) h sig rest d.length hhd hdpos (by omega) (chunkSig_no_cr P prev d)
+      simpa [crlf] using this
+    -- the complete header, with the CRLF in front of it
+    let Hd := preOf st1.isFirstHeader ++ (h ++ sigIntro ++ sig) ++ [13, 10]
+    have hHdlen : Hd.length ≤ ChunkSigned.maxHeaderSize := by
+      have hs := H.hdr_small prev d acc
+      have hp := preOf_length_le st1.isFirstHeader
+      simp only [Hd, List.length_append, List.length_cons, List.length_nil]
+      show _ ≤ ChunkSigned.maxHeaderSize
+      have : (chunkSig P prev d).length = sig.length := rfl
+      omega
+    have hstream : preOf st.isFirstHeader ++ renderSigned P tr prev acc ((h, d) :: cs) hz = Hd ++ (d ++ (crlf ++ R)) := by
+      simp [renderSigned, hfh, crlf, R, sig, Hd]
+    rw [hstream] at hFG
+    rcases split_prefix F G Hd _ hFG with ⟨hlt, X, hXne, hFX⟩ | ⟨F', hF, hF'G⟩
+    · -- F ends inside the header
+      have hph := parseHeader_of_core (signedCfg P tr L) st1.isFirstHeader ((h ++ sigIntro ++ sig) ++ [13, 10]) [] _
+        (by simpa using hcoreR [])
+      simp only [List.append_nil] at hph
+      have hinc := hdr_incomplete (signedCfg P tr L) st1 Hd F X _ (hstash.trans hb.stash) (hE1.trans hE)
+        (by simpa [Hd] using hph) hFX hXne
+      refine ⟨{ ({ st1 with stash := F } : ChunkSigned.State) with chunkDataLeft := 0 }, [], ?_, ?_⟩
+      · rw [ChunkSigned.parseAndRemove]
+        unfold ChunkSigned.parStep
+        simp only [hchk]
+        unfold ChunkSigned.parBody
+        rw [hinc]
+      · simp only; omega
+    · -- F covers the header
+      subst hF
+      have hhdr := hdr_chunk (signedCfg P tr L) st1 _ F' sig _ (hstash.trans hb.stash) (hcoreR F') hn0 h13
+      have e2 : Hd ++ F' = preOf st1.isFirstHeader ++ ((h ++ sigIntro ++ sig) ++ 13 :: 10 :: F') := by simp [Hd]
+      rw [e2, par_unfold_cont _ fuel st st1 _ _ sig _ _ hchk hhdr hn0, ← e2]
+      have hHdl : Hd.length = (preOf st1.isFirstHeader).length + (h ++ sigIntro ++ sig).length + 2 := by
+        simp [Hd]; omega
+      by_cases hle : F'.length ≤ d.length
+      · -- … and ends inside the chunk data
+        rw [cont_data _ _ _ _ d.length Hd F' hHdl hle]
+        exact ⟨_, _, rfl, by simp [ChunkSigned.hashWrite, hstash, hb.stash]⟩
+      · -- … and goes on behind the chunk data
+        have hsplit := split_prefix F' G d (crlf ++ R) hF'G
+        rcases hsplit with ⟨hlt, _⟩ | ⟨F'', hF'', hF''G⟩
+        · omega
+        · subst hF''
+          have hF''ne : F'' ≠ [] := by
+            intro e; subst e; simp at hle
+          have hFl : (F''.length : Int) ≤ ChunkSigned.intMax := by
+            simp only [List.length_append] at hFmax; omega
+          obtain ⟨st4, o, hr, hsl⟩ := ih hz
+            (ChunkSigned.hashWrite (signedCfg P tr L) { ({ st1 with isFirstHeader := false } : ChunkSigned.State) with
+              parsedSig := sig, chunkDataLeft := 0 } d)
+            (acc ++ d) fuel F'' G (fun c hc => hwf c (by simp [hc])) hhz (fun c hc => hdig c (by simp [hc])) hhzl
+            (by omega) (by simp at hfuel; omega)
+            ⟨by simp [ChunkSigned.hashWrite, hstash, hb.stash], by intro h; simp [ChunkSigned.hashWrite] at h,
+              by intro _; simp [ChunkSigned.hashWrite, hprev', hca, sig],
+              by intro ht; simp [ChunkSigned.hashWrite, signedCfg, ht, H.name_ne, hcsum, hb.csum ht]⟩
+            (by simp [ChunkSigned.hashWrite, hE1, hE]) hG
+            (by simpa [prevOf, preOf, ChunkSigned.hashWrite, crlf, R, sig] using hF''G) hFl
+          have hr' : ChunkSigned.parseAndRemove (signedCfg P tr L) fuel
+              (ChunkSigned.hashWrite (signedCfg P tr L) { ({ ({ st1 with isFirstHeader := false } : ChunkSigned.State) with
+                parsedSig := sig } : ChunkSigned.State) with chunkDataLeft := 0 } d) F'' = (st4, ⟨o, .nil⟩) := hr
+          have hol := par_out_le (signedCfg P tr L) fuel
+            (ChunkSigned.hashWrite (signedCfg P tr L) { ({ st1 with isFirstHeader := false } : ChunkSigned.State) with
+              parsedSig := sig, chunkDataLeft := 0 } d) F''
+          rw [hr] at hol
+          simp only at hol
+          refine ⟨st4, d ++ o, ?_, hsl⟩
+          exact cont_rec _ _ _ st4 _ Hd d F'' o .nil hHdl hF''ne hr' (Or.inl rfl)
+            (by simp only [List.length_append] at hFmax; omega)
 
 theorem renderSigned_length (P : Params) (tr : Bool) (cs : List Chunk) :
     ∀ (prev acc hz : Bytes), cs.length + 2 ≤ (renderSigned P tr prev acc cs hz).length := by
@@ -384,20 +560,48 @@ theorem render_variantOf (P : Params) (tr : Bool) (cs : List Chunk) (hz : Bytes)
     render P (variantOf tr) cs hz = renderSigned P tr P.seedSig [] cs hz := by
   cases tr <;> rfl
 
+theorem init_boundary (P : Params) (tr : Bool) (e : Bool) :
+    AtBoundary P tr (setE e (ChunkSigned.init P.seedSig)) [] :=
+  ⟨rfl, fun _ => ⟨rfl, rfl⟩, fun h => by simp [setE, ChunkSigned.init] at h, fun _ => rfl⟩
+
 /-- `Read` on the whole stream at once -/
 theorem read_whole (P : Params) (tr : Bool) (L : Nat) (H : SignedHyps P tr L) (cs : List Chunk) (hz : Bytes)
     (hwf : WF cs hz) (eof : Bool) (cap : Nat) :
     ∃ st', ChunkSigned.read (signedCfg P tr L) (ChunkSigned.init P.seedSig)
       (renderSigned P tr P.seedSig [] cs hz) eof cap = (st', ⟨payloadOf cs, .eof⟩) := by
   have hlen := renderSigned_length P tr cs P.seedSig [] hz
-  obtain ⟨st', h⟩ := par_chunks P tr L H cs hz { ChunkSigned.init P.seedSig with isEOF := eof } []
-    ((renderSigned P tr P.seedSig [] cs hz).length + 1) hwf.1 hwf.2.1 hwf.2.2 (by omega) rfl
-    (by intro _; exact ⟨rfl, rfl⟩) (by intro h; simp [ChunkSigned.init] at h) (by intro _; rfl)
+  obtain ⟨st', h⟩ := par_chunks P tr L H cs hz (setE eof (ChunkSigned.init P.seedSig)) []
+    ((renderSigned P tr P.seedSig [] cs hz).length + 1) hwf.1 hwf.2.1 hwf.2.2.1 (by omega) (init_boundary P tr eof)
   refine ⟨st', ?_⟩
-  simp only [ChunkSigned.init, if_true, List.nil_append] at h
-  unfold ChunkSigned.read
-  have hpos : (0 : Int) < ((renderSigned P tr P.seedSig [] cs hz).length : Int) := by omega
-  simp only [ChunkSigned.init, hpos, if_true]
-  simp [h]
+  rw [read_hdr _ _ _ eof cap (by simp [ChunkSigned.init]) (by simp [ChunkSigned.init]; omega)]
+  simp only [ChunkSigned.init, Int.toNat_zero, List.take_zero, List.drop_zero, Int.lt_irrefl, gt_iff_lt, if_false]
+  have h' : ChunkSigned.parseAndRemove (signedCfg P tr L) ((renderSigned P tr P.seedSig [] cs hz).length + 1)
+      (setE eof { prevSig := P.seedSig }) (renderSigned P tr P.seedSig [] cs hz) = (st', ⟨payloadOf cs, .eof⟩) := by
+    simpa [preOf, prevOf, setE, ChunkSigned.init] using h
+  rw [h']
+  rfl
+
+/-- `Read` on a proper, non-empty prefix of the stream: no error, and a stash within the limit -/
+theorem read_prefix (P : Params) (tr : Bool) (L : Nat) (H : SignedHyps P tr L) (cs : List Chunk) (hz : Bytes)
+    (hwf : WF cs hz) (F G : Bytes) (hF : F ≠ []) (hG : G ≠ []) (hFG : F ++ G = renderSigned P tr P.seedSig [] cs hz)
+    (hmax : (F.length : Int) ≤ ChunkSigned.intMax) (cap : Nat) :
+    (ChunkSigned.read (signedCfg P tr L) (ChunkSigned.init P.seedSig) F false cap).2.status = .nil ∧
+    (ChunkSigned.read (signedCfg P tr L) (ChunkSigned.init P.seedSig) F false cap).1.stash.length ≤
+      ChunkSigned.maxHeaderSize := by
+  have hlen := renderSigned_length P tr cs P.seedSig [] hz
+  have hFl : 0 < F.length := List.length_pos_iff.2 hF
+  have hl := congrArg List.length hFG
+  simp only [List.length_append] at hl
+  obtain ⟨st', o, h, hs⟩ := par_prefix P tr L H cs hz (setE false (ChunkSigned.init P.seedSig)) [] (F.length + cs.length + 1) F G
+    hwf.1 hwf.2.1 hwf.2.2.2.1 hwf.2.2.2.2 hwf.2.2.1 (by omega) (init_boundary P tr false) rfl hG
+    (by simpa [preOf, prevOf, setE, ChunkSigned.init] using hFG) hmax
+  rw [read_hdr _ _ _ false cap (by simp [ChunkSigned.init]) (by simp [ChunkSigned.init]; omega)]
+  simp only [ChunkSigned.init, Int.toNat_zero, List.take_zero, List.drop_zero, Int.lt_irrefl, gt_iff_lt, if_false]
+  have h' : ChunkSigned.parseAndRemove (signedCfg P tr L) (F.length + 1)
+      (setE false { prevSig := P.seedSig }) F = (st', ⟨o, .nil⟩) := by
+    rw [par_fuel _ (F.length + 1) (F.length + cs.length + 1) _ F (by omega) (by omega)]
+    simpa [setE, ChunkSigned.init] using h
+  rw [h']
+  exact ⟨rfl, hs⟩
 
 end Vgw.Lemmas.ChunkSigned
